@@ -59,12 +59,13 @@ func VerifC18LexPositions() {
 			continue
 		}
 		line, col := c18RefLineCol(src, t.Pos)
-		zz.Known("C18-hash-comment-column", "C18.pos", c18HashOnPrevLine(src, t.Pos))
-		zz.Assert(t.Lline == line && t.Lpos == col, "C18.pos")
+		zz.Assert(t.Lline == line, "C18.line")
+		zz.Known("C18-hash-comment-column", "C18.column", c18HashOnPrevLine(src, t.Pos)) // the listed finding concerns the column only
+		zz.Assert(t.Lpos == col, "C18.column")
 	}
 }
 
-var c18Seps = []string{" ", "\n", " # c\n", " /* c */ ", " /* c */\n", "\n/* c\n c */\n", " /* c\n */ ", "\n\n", "\t\n  ", " # a # b\n", "/**/", "\n# c\n# d\n", "/*\n*/", " /*\n c */ ", "/*\n\n*/\n", "/*\r\n*/", "\r\n"}
+var c18Seps = []string{" ", "\n", " # c\n", " /* c */ ", " /* c */\n", "\n/* c\n c */\n", " /* c\n */ ", "\n\n", "\t\n  ", " # a # b\n", "/**/", "\n# c\n# d\n", "/*\n*/", " /*\n c */ ", "/*\n\n*/\n", "/*\r\n*/", "\r\n", " # c\r\n", "\r\n# c\r\n# d\r\n"}
 
 // values of the first statement: numbers, quoted strings, raw strings spanning lines (also with a backslash at the end of a line)
 var c18Vals = []string{"1", "\"s\"", "r\"x\"", "r\"x\ny\"", "r\"x\\\ny\"", "r'x\\\n'", "r\"a\n\nb\\\\\nc\"", "'x\\\\'"}
@@ -104,8 +105,9 @@ func VerifC18Separation() {
 			continue
 		}
 		line, col := c18RefLineCol([]byte(src), t.Pos)
-		zz.Known("C18-hash-comment-column", "C18.pos", c18HashOnPrevLine([]byte(src), t.Pos))
-		zz.Assert(t.Lline == line && t.Lpos == col, "C18.pos")
+		zz.Assert(t.Lline == line, "C18.line")
+		zz.Known("C18-hash-comment-column", "C18.column", c18HashOnPrevLine([]byte(src), t.Pos))
+		zz.Assert(t.Lpos == col, "C18.column")
 	}
 	// planted offending token ')' after a second arrangement
 	prefix := "a := " + v1 + s1 + "b := 2" + s2
@@ -114,9 +116,10 @@ func VerifC18Separation() {
 	zz.Assert(err2 != nil, "C18.offending-token-rejected")
 	if pe, ok := err2.(*Error); ok && pe.Type != ErrUnexpectedEnd && c18Newlines(s1) > 0 {
 		line, col := c18RefLineCol([]byte(src2), len(prefix))
-		zz.Known("C18-hash-comment-column", "C18.parser-error-position", c18HashOnPrevLine([]byte(src2), len(prefix)))
+		zz.Known("C18-hash-comment-column", "C18.parser-error-column", c18HashOnPrevLine([]byte(src2), len(prefix)))
 		if pe.Detail == ")" || pe.Line == line {
-			zz.Assert(pe.Line == line && pe.Pos == col, "C18.parser-error-position")
+			zz.Assert(pe.Line == line, "C18.parser-error-line")
+			zz.Assert(pe.Pos == col, "C18.parser-error-column")
 		}
 	}
 }
